@@ -332,6 +332,8 @@ class Verifier:
         m = Machine(self.repo, self.registry)
         m.current_contract = ccls
         m.skip_contract_for = {ccls.key} | set(getattr(ccls, "inline", ()))
+        m.unit_module = ccls.__module__
+        m.unit_target_qual = ccls.target
         m.modular = (mode or ("unbounded" if shape is None else "bounded")) == "unbounded"
         label = (prop + "/" if prop else "") + ccls.target.split(":")[1]
         if getattr(ccls, "label", None):
